@@ -224,10 +224,15 @@ def sites(cls: str, root: El, version: str) -> list[tuple[str, Any]]:
     """[(kind, handle)] in document order for a tree-level mutation class."""
     out: list[tuple[str, Any]] = []
     if cls == 'attr-removed':
+        # the reader validates the children of a LexiconExtension on a path of its own, so
+        # sites inside one are kinds of their own ("~ext")
+        in_ext = {id(d) for x, _p, _i in walk(root) if x.tag == 'LexiconExtension'
+                  for d, _q, _j in walk(x)}
         for el, _p, _i in walk(root):
             for a in IDENTIFYING.get(el.tag, ()):
                 if any(k == a for k, _v in el.attrs):
-                    out.append((f'{el.tag}@{a}', (el, a)))
+                    ext = '~ext' if id(el) in in_ext and el.tag != 'LexiconExtension' else ''
+                    out.append((f'{el.tag}@{a}{ext}', (el, a)))
             if el.tag in ('Extends', 'Requires'):      # both identifying attributes at once
                 out.append((f'{el.tag}@id+version', (el, ('id', 'version'))))
     elif cls == 'elem-renamed':
